@@ -12,7 +12,8 @@ RULE = ("strings of length 0..12 over an adversarial alphabet (separators , | . 
         "quotes, backslash, TAB, LF, CR, space, non-ASCII) and all pairs from a fixed small set; laws: split/join "
         "inverse (both directions, escaped separator), replace = host replace, reverse involution, idempotence of "
         "upper/lower/trim, contains <=> find>=0 <=> in <=> host containment, starts_with/ends_with vs find/substr, "
-        "length additivity, chr/ord, words/unwords, lines/unlines, s() and sprintf() templates; a case is one "
+        "length additivity, chr/ord, words/unwords, lines/unlines, s() and sprintf() templates; every fourth law round on "
+        "variables whose strings were first used (as text, separator, pattern) and then edited in place; a case is one "
         "(law, strings) tuple; non-trivial = some string non-empty; distinct by tuple")
 ASSUMPTIONS = [
     "regex-valued separators are only used escaped",
@@ -50,6 +51,7 @@ class Runner:
         self.ctx = ctx
         self.it, self.out = core.new_interpreter(secure=True, legacy=True)
         self.Env = ckl.functions.Environment
+        self.prefix = ""
 
     def ev(self, text, env=None):
         env = env or self.Env()
@@ -57,6 +59,11 @@ class Runner:
 
     def expect(self, text, want, key, case):
         ctx = self.ctx
+        if self.prefix:
+            text = self.prefix + text
+            case = ("after-edits",) + tuple(case)
+            key = key + ":after-edits"
+            ctx.count("evaluations_on_edited_strings")
         o = self.ev(text)
         ctx.count("evaluations")
         ctx.case(case, nontrivial=True)
@@ -84,8 +91,28 @@ def to_py(v):
     return ("?", t, str(v))
 
 
-def law_cases(R, r, s, t, sep):
+def law_cases(R, r, s, t, sep, hist=False):
     Ss, St, Sp = S(s, r), S(t, r), S(sep, r)
+    R.prefix = ""
+    if hist:
+        # the three operands are variables whose strings were used (as text, as separator, as pattern) and then
+        # edited in place into s, t and sep
+        from cklgen import history
+        stmts = []
+        for name, val in (("hs", s), ("ht", t), ("hp", sep)):
+            st, tg = history.build(r, ("str", val), name, extra_primers=(
+                "split('a,b;c', %s)" % name, "split2('a,b;c', %s, ';')" % name, "replace('a,b', %s, 'x')" % name,
+                "join(['a', 'b'], %s)" % name, "find('a,b', %s)" % name))
+            stmts += st
+            for x in tg:
+                R.ctx.count("edit:" + x)
+        R.prefix = "; ".join(stmts) + "; "
+        Ss, St, Sp = "hs", "ht", "hp"
+    plain_sep = bool(sep) and all(ch.isalnum() or ch in " ;:,'\"/-_" for ch in sep)
+    if plain_sep:
+        if s:
+            R.expect("split(%s, %s)" % (Ss, Sp), s.split(sep), "split-plain:host", ("splitp", s, sep))
+        R.expect("join(split(%s, %s), %s) == %s" % (Ss, Sp, Sp, Ss), True, "split-join-plain:inverse", ("sjp", s, sep))
     # 1. split / join
     if sep:
         R.expect("join(split(%s, escape_pattern(%s)), %s) == %s" % (Ss, Sp, Sp, Ss), True, "split-join:inverse", ("sj", s, sep))
@@ -128,6 +155,7 @@ def law_cases(R, r, s, t, sep):
         c = s[0]
         R.expect("chr(ord(%s)) == %s" % (S(c, r), S(c, r)), True, "chr-ord:inverse", ("chrord", c))
         R.expect("ord(%s)" % S(c, r), ord(c), "ord:host", ("ord", c))
+    R.prefix = ""
 
 
 def fmt_value(v):
@@ -244,11 +272,11 @@ def run_shard(spec, ctx):
     R = Runner(ctx)
     r = ctx.rng
     if spec["kind"] == "laws":
-        for _ in range(spec["n"]):
+        for i in range(spec["n"]):
             s = gen_str(r)
             t = gen_str(r, 3) if r.random() < 0.6 else (s[r.randrange(len(s)):][:r.randint(1, 3)] if s else "")
             sep = r.choice(SEPS)
-            law_cases(R, r, s, t, sep)
+            law_cases(R, r, s, t, sep, hist=(i % 4 == 3))
         ctx.sample({"law": "join(split(s, escape_pattern(sep)), sep) == s", "s": "a.b*c", "sep": "*"})
     elif spec["kind"] == "templates":
         for _ in range(spec["n"]):
@@ -278,8 +306,8 @@ def run_shard(spec, ctx):
 def finalize(merged, tier):
     c = merged["counters"]
     reasons = []
-    if c.get("evaluations", 0) == 0:
-        reasons.append("no evaluations")
+    if c.get("evaluations", 0) == 0 or c.get("evaluations_on_edited_strings", 0) == 0:
+        reasons.append("no evaluations (or none on edited strings)")
     if not any(ex.get("fixed_done") for spec, ex in merged["shard_docs"]):
         reasons.append("fixed pair set not completed")
     return {}, reasons
